@@ -124,6 +124,8 @@ impl essential_vm::OpAccess for GuardedOps {
 }
 
 pub struct RunOut {
+    /// for an out-of-gas outcome: the gas the error reports as spent so far
+    pub oog_spent: Option<u64>,
     /// result of the boolean extraction when run through eval: "t", "f" or "inv"
     pub eval: Option<&'static str>,
     pub outcome: Outcome,
@@ -148,12 +150,18 @@ pub fn run_traced(cfg: &RunCfg) -> RunOut {
             return pre;
         }
     }
+    let mut vm = obs::build_vm(&cfg.vm0);
+    run_traced_on(cfg, &mut vm)
+}
+
+/// Like `run_traced`, but continues an existing machine (whatever state an earlier call left it
+/// in); `cfg.vm0` must be a snapshot of `vm`.
+pub fn run_traced_on(cfg: &RunCfg, vm: &mut Vm) -> RunOut {
     let _g = RUN_LOCK.lock().unwrap_or_else(|e| e.into_inner());
     let rec = obs::recorder();
     rec.take();
     obs::drain_reads();
     rec.enabled.store(true, Ordering::SeqCst);
-    let mut vm = obs::build_vm(&cfg.vm0);
     let access = Access::new(Arc::new(cfg.sols.clone()), cfg.idx as u16);
     let state = (cfg.pre.clone(), cfg.post.clone());
     let cost = cfg.cost.clone();
@@ -189,6 +197,13 @@ pub fn run_traced(cfg: &RunCfg) -> RunOut {
     }));
     rec.enabled.store(false, Ordering::SeqCst);
     let evs = rec.take();
+    let oog_spent = match &res {
+        Ok(Err(e)) => match &e.1 {
+            OpError::OutOfGas(o) => Some(o.spent),
+            _ => None,
+        },
+        _ => None,
+    };
     let outcome = match res {
         Ok(Ok(_)) if cfg.how == How::EvalOps => {
             // eval does not return the gas: take it from the top-level VM's exit event
@@ -214,7 +229,7 @@ pub fn run_traced(cfg: &RunCfg) -> RunOut {
             Outcome::Panic(msg)
         }
     };
-    RunOut { eval, outcome, fin: obs::snap(&vm), evs }
+    RunOut { oog_spent, eval, outcome, fin: obs::snap(vm), evs }
 }
 
 // ---------------------------------------------------------------------------------------------
